@@ -1,5 +1,397 @@
-import FastorModel.Model.Einsum
+import FastorModel.Proofs.Einsum
+/-
+# C03 — Pairwise einsum equals the Einstein summation it denotes
+
+Property (properties.jsonl): for every pair of index lists in which no index occurs more than twice
+and every operand shape consistent with them, einsum of two tensors returns a tensor whose free
+indices are the non-repeated indices in order of first appearance, with extents taken from the
+operands, and whose every element equals the sum over all repeated indices of the product of the
+corresponding operand elements.
+
+Reading of the formal statements below.
+* `p : Pair` carries the two index lists `p.I`, `p.J` (index *names* are natural numbers) and the two
+  extent lists `p.dI`, `p.dJ`; `p.cat = I ++ J`, `p.catDims = dI ++ dJ`.  `a b : Nat → R` are the two
+  row-major operand buffers over an arbitrary commutative semiring `R`.
+* `uniq p.cat` is the list of loop variables (one per index name, in order of first appearance),
+  `p.loopDims` their extents, `assignments p.loopDims 1` the scalar loop nest: the list of all
+  assignments `σ` (a value for every loop variable) in program order.  `posIn p.cat idx` maps each
+  index of `idx` to its loop variable, `flatAt dims pos σ` is the row-major offset of the element of a
+  tensor of extents `dims` whose k-th index is the value of loop variable `pos[k]` under `σ`.
+* `p.loopEvents 1` is the model of the `RecursiveCartesian` loop nest: per assignment one accumulation
+  `out[io] += a[ia] * b[ib]`; `accAt a b evs q` is the final content of cell `q` of the
+  zero-initialised result.
+* `p.term a b σ = a (flatAt p.dI (posIn p.cat p.I) σ) * b (flatAt p.dJ (posIn p.cat p.J) σ)` is the
+  product of the operand elements selected by `σ`; `p.free σ` is the list of values `σ` gives to the
+  result indices (in result order).
+* `result_type_correct` (T4): the result indices are the indices of `I ++ J` that occur once, in order
+  of first appearance; the result extents are the operand extents found at the position of each such
+  index; if no index occurs more than twice, every loop variable is either a result index or occurs
+  exactly twice (is contracted).
+* `loopnest_correct` (T5, the main theorem): for *every* pattern (also with an index repeated inside
+  one operand, also with indices occurring more than twice), all extents, and every in-range
+  assignment `σ₀`, the result cell addressed by the free part of `σ₀` ends up holding the sum of
+  `p.term a b σ` over all assignments `σ` of all index names that agree with `σ₀` on the free
+  indices, each counted exactly once — i.e. the sum over all values of the repeated indices of the
+  product of the corresponding operand elements.  `loopnest_correct_cell` is the same statement for an
+  arbitrary in-range result multi-index `m` (it also covers results none of whose cells is ever
+  written, e.g. a contracted extent 0: the cell holds the empty sum), `loopnest_all_cells` says every
+  cell `q < prod p.resDims` is such a cell and `loopnest_frame` that cells `q ≥ prod p.resDims` are
+  never written.
+  The hypothesis "extents consistent" (`Consistent`) is *not needed* for these: a result index occurs
+  once, so its result extent is by construction the loop extent of its loop variable.  Consistency is
+  what makes the operand offsets genuine elements: `operand_offsets_in_range`.
+* T1 `accAt_eq_sum`, T2 `mem_assignments`/`assignments_nodup`, T3 `flat_injective`/`flat_lt_prod`
+  are the three ingredients (accumulation = sum, every assignment exactly once, two assignments hit
+  the same cell iff they agree on the free indices).
+* T6 `loopnest_vectorised_correct`: with the stride `p.stride sz vec` that `is_vectorisable` selects
+  (any element size up to 16 bytes) the vector loop nest — innermost step `V`, each event covering `V`
+  consecutive lanes — leaves in every cell exactly what the scalar nest leaves (`stride_sound` shows
+  the stride is 1 unless the last index of the second operand is free and `V` divides its extent;
+  `loopnest_vectorised_expand` shows that then the vector events expand to the scalar events, in
+  order).  `loopnest_vectorised_cell` is T5 for the nest as run.
+* T6b `reroute_gemm_correct` / `reroute_gemm_dispatch`: whenever the dispatch selects the matrix-matrix
+  back end, the Einstein sum is the `(M,K,N)` matrix product of the operand buffers with
+  `(M,K,N) = p.gemmShape` (here extents must be consistent and `K > 0`).
+* The correspondence run of `./check C03` ties `Pair.loopEvents`, `Pair.stride`, `Pair.route` and the
+  metafunctions to the real templates (same result extents, values, store order, read sets).
+-/
 namespace Fastor.C03
-/-- placeholder replaced below in this session: the C03 theorems are being written -/
-theorem placeholder_true : True := trivial
+open Fastor Fastor.Einsum
+
+variable {R : Type} [CommSemiring R]
+
+/-! ### T1 -/
+
+/-- **T1.** For scalar events the final content of cell `q` is the sum of `a[ia]*b[ib]` over the
+    events addressed to `q`. -/
+theorem accAt_eq_sum (a b : Nat → R) (evs : List Acc) (h1 : ∀ e ∈ evs, e.lanes = 1) (q : Nat) :
+    accAt a b evs q = ((evs.filter (fun e => decide (e.io = q))).map (fun e => a e.ia * b e.ib)).sum :=
+  Einsum.accAt_eq_sum a b evs h1 q
+
+/-- general lanes: the sum over the events whose lane window contains `q` -/
+theorem accAt_eq_sum_lanes (a b : Nat → R) (evs : List Acc) (q : Nat) :
+    accAt a b evs q
+      = ((evs.filter (fun e => decide (e.io ≤ q ∧ q < e.io + e.lanes))).map
+          (fun e => a e.ia * b (e.ib + (q - e.io)))).sum :=
+  Einsum.accAt_eq_sum_lanes a b evs q
+
+/-! ### T2 -/
+
+/-- **T2.** The scalar loop nest visits exactly the in-range assignments … -/
+theorem mem_assignments (dims σ : List Nat) :
+    σ ∈ assignments dims 1 ↔
+      σ.length = dims.length ∧ ∀ k < dims.length, σ.getD k 0 < dims.getD k 0 := by
+  rw [mem_assignments_iff, inRange_iff_getD]
+
+/-- … each exactly once. -/
+theorem assignments_nodup (dims : List Nat) : (assignments dims 1).Nodup :=
+  Einsum.assignments_nodup dims
+
+/-! ### T3 -/
+
+/-- `flatAt` is the row-major offset `flat` of the multi-index read off the assignment -/
+theorem flatAt_eq_flat (dims pos σ : List Nat) :
+    flatAt dims pos σ = flat dims (pos.map (σ.getD · 0)) := Einsum.flatAt_eq_flat dims pos σ
+
+/-- **T3.** Row-major offsets are injective on in-range multi-indices. -/
+theorem flat_injective (dims x y : List Nat)
+    (hx : x.length = dims.length) (hxr : ∀ k < dims.length, x.getD k 0 < dims.getD k 0)
+    (hy : y.length = dims.length) (hyr : ∀ k < dims.length, y.getD k 0 < dims.getD k 0)
+    (h : flat dims x = flat dims y) : x = y :=
+  Einsum.flat_injective (inRange_iff_getD.2 ⟨hx, hxr⟩) (inRange_iff_getD.2 ⟨hy, hyr⟩) h
+
+theorem flat_lt_prod (dims x : List Nat)
+    (hx : x.length = dims.length) (hxr : ∀ k < dims.length, x.getD k 0 < dims.getD k 0) :
+    flat dims x < prod dims :=
+  Einsum.flat_lt_prod (inRange_iff_getD.2 ⟨hx, hxr⟩)
+
+/-- every cell below the product of the extents is the offset of an in-range multi-index -/
+theorem flat_surjective (dims : List Nat) (q : Nat) (hq : q < prod dims) :
+    ∃ x, x.length = dims.length ∧ (∀ k < dims.length, x.getD k 0 < dims.getD k 0) ∧ flat dims x = q := by
+  obtain ⟨x, hx, hf⟩ := Einsum.flat_surjective dims hq
+  exact ⟨x, (inRange_iff_getD.1 hx).1, (inRange_iff_getD.1 hx).2, hf⟩
+
+/-! ### T4 -/
+
+/-- **T4.** The result type: (1) the free indices are the indices of `I ++ J` occurring once, in the
+    order of `I ++ J`, which (2) is their order of first appearance (their order among the loop
+    variables `uniq (I ++ J)`); (3) no index is listed twice; (4) the k-th result extent is the
+    operand extent at the (only) position of the k-th result index. -/
+theorem result_type_correct (p : Pair) (hI : p.I.length = p.dI.length) (hJ : p.J.length = p.dJ.length) :
+    p.resIdx = (p.I ++ p.J).filter (fun x => decide ((p.I ++ p.J).count x = 1)) ∧
+    p.resIdx = (uniq (p.I ++ p.J)).filter (fun x => decide ((p.I ++ p.J).count x = 1)) ∧
+    p.resIdx.Nodup ∧
+    p.resDims = p.resIdx.map (fun x => (p.dI ++ p.dJ).getD ((p.I ++ p.J).idxOf x) 0) := by
+  have e : (fun x => decide ((p.I ++ p.J).count x = 1)) = occursOnce (p.I ++ p.J) := by
+    funext x; unfold occursOnce; generalize (p.I ++ p.J).count x = n
+    by_cases h : n = 1 <;> simp [h]
+  rw [e]
+  exact ⟨rfl, resultIdx_eq_filter_uniq _, resultIdx_nodup _, resultDims_eq_map (p.cat_length hI hJ)⟩
+
+/-- **T4, at most twice.** If no index occurs more than twice, the loop variables split into the
+    result indices and the indices occurring exactly twice (the contracted ones). -/
+theorem loop_variables_split (p : Pair) (h2 : ∀ x, p.cat.count x ≤ 2) :
+    (p.resIdx ++ (uniq p.cat).filter (fun x => decide (p.cat.count x = 2))).Perm (uniq p.cat) := by
+  have h := List.filter_append_perm (occursOnce p.cat) (uniq p.cat)
+  rw [← resultIdx_eq_filter_uniq] at h
+  have e : (uniq p.cat).filter (fun x => !occursOnce p.cat x)
+      = (uniq p.cat).filter (fun x => decide (p.cat.count x = 2)) := by
+    apply List.filter_congr
+    intro x hx
+    have h1 : 0 < p.cat.count x := List.count_pos_iff.2 (mem_uniq.1 hx)
+    have := h2 x
+    simp only [occursOnce]
+    by_cases hc : p.cat.count x = 1
+    · simp [hc]
+    · have : p.cat.count x = 2 := by omega
+      simp [this]
+  rw [e] at h
+  exact h
+
+/-- the number of loop variables is the number of distinct index names -/
+theorem loopDims_length (p : Pair) : p.loopDims.length = (uniq p.cat).length :=
+  Einsum.loopDims_length _ _
+
+/-! ### T5 -/
+
+/-- **T5 (C03, main theorem).**  For every index pattern and all extents, after the scalar loop nest
+    the result cell addressed by the free part of an in-range assignment `σ₀` holds the sum, over
+    all in-range assignments `σ` of all index names that agree with `σ₀` on the free indices (each
+    once), of the product of the operand elements selected by `σ` — the Einstein sum. -/
+theorem loopnest_correct (p : Pair) (hI : p.I.length = p.dI.length) (hJ : p.J.length = p.dJ.length)
+    (a b : Nat → R) (σ₀ : List Nat) (hσ₀ : σ₀ ∈ assignments p.loopDims 1) :
+    accAt a b (p.loopEvents 1) (flatAt p.resDims (posIn p.cat p.resIdx) σ₀)
+      = (((assignments p.loopDims 1).filter (fun σ => decide (p.free σ = p.free σ₀))).map
+          (fun σ => a (flatAt p.dI (posIn p.cat p.I) σ) * b (flatAt p.dJ (posIn p.cat p.J) σ))).sum := by
+  rw [Pair.io_eq_flat]
+  exact p.loopnest_cell hI hJ a b (p.free_inRange hI hJ hσ₀)
+
+/-- the same for an arbitrary in-range result multi-index `m` (covers cells that no event touches) -/
+theorem loopnest_correct_cell (p : Pair) (hI : p.I.length = p.dI.length) (hJ : p.J.length = p.dJ.length)
+    (a b : Nat → R) (m : List Nat) (hm : m.length = p.resDims.length)
+    (hmr : ∀ k < p.resDims.length, m.getD k 0 < p.resDims.getD k 0) :
+    accAt a b (p.loopEvents 1) (flat p.resDims m)
+      = (((assignments p.loopDims 1).filter (fun σ => decide (p.free σ = m))).map
+          (fun σ => a (flatAt p.dI (posIn p.cat p.I) σ) * b (flatAt p.dJ (posIn p.cat p.J) σ))).sum :=
+  p.loopnest_cell hI hJ a b (inRange_iff_getD.2 ⟨hm, hmr⟩)
+
+/-- every cell of the result is of that form: the whole result buffer is determined -/
+theorem loopnest_all_cells (p : Pair) (hI : p.I.length = p.dI.length) (hJ : p.J.length = p.dJ.length)
+    (a b : Nat → R) (q : Nat) (hq : q < prod p.resDims) :
+    ∃ m, m.length = p.resDims.length ∧ (∀ k < p.resDims.length, m.getD k 0 < p.resDims.getD k 0) ∧
+      flat p.resDims m = q ∧
+      accAt a b (p.loopEvents 1) q
+        = (((assignments p.loopDims 1).filter (fun σ => decide (p.free σ = m))).map
+            (fun σ => a (flatAt p.dI (posIn p.cat p.I) σ) * b (flatAt p.dJ (posIn p.cat p.J) σ))).sum := by
+  obtain ⟨m, hm, hf⟩ := Einsum.flat_surjective p.resDims hq
+  refine ⟨m, (inRange_iff_getD.1 hm).1, (inRange_iff_getD.1 hm).2, hf, ?_⟩
+  rw [← hf]
+  exact p.loopnest_cell hI hJ a b hm
+
+/-- frame: cells at or beyond the size of the result are never written -/
+theorem loopnest_frame (p : Pair) (hI : p.I.length = p.dI.length) (hJ : p.J.length = p.dJ.length)
+    (a b : Nat → R) (q : Nat) (hq : prod p.resDims ≤ q) : accAt a b (p.loopEvents 1) q = 0 :=
+  p.loopnest_frame hI hJ a b hq
+
+/-- the free part of an in-range assignment is an in-range result multi-index, and two in-range
+    assignments address the same result cell iff they agree on the free indices -/
+theorem same_cell_iff (p : Pair) (hI : p.I.length = p.dI.length) (hJ : p.J.length = p.dJ.length)
+    (σ τ : List Nat) (hσ : σ ∈ assignments p.loopDims 1) (hτ : τ ∈ assignments p.loopDims 1) :
+    flatAt p.resDims (posIn p.cat p.resIdx) σ = flatAt p.resDims (posIn p.cat p.resIdx) τ
+      ↔ p.free σ = p.free τ := by
+  rw [Pair.io_eq_flat, Pair.io_eq_flat]
+  exact ⟨Einsum.flat_injective (p.free_inRange hI hJ hσ) (p.free_inRange hI hJ hτ), fun h => by rw [h]⟩
+
+/-- with consistent extents (every occurrence of an index name has the same extent) the operand
+    offsets of every visited assignment are offsets of in-range operand multi-indices: each term of
+    the sum is a genuine element of `a` times a genuine element of `b`, and no read is out of range -/
+theorem operand_offsets_in_range (p : Pair) (hI : p.I.length = p.dI.length)
+    (hJ : p.J.length = p.dJ.length) (hcons : Consistent p.cat p.catDims)
+    (σ : List Nat) (hσ : σ ∈ assignments p.loopDims 1) :
+    InRange ((posIn p.cat p.I).map (σ.getD · 0)) p.dI ∧
+    InRange ((posIn p.cat p.J).map (σ.getD · 0)) p.dJ ∧
+    flatAt p.dI (posIn p.cat p.I) σ < prod p.dI ∧
+    flatAt p.dJ (posIn p.cat p.J) σ < prod p.dJ := by
+  have hz : p.cat.zip p.catDims = p.I.zip p.dI ++ p.J.zip p.dJ := List.zip_append hI
+  have hσ' := mem_assignments_iff.1 hσ
+  have h1 : InRange ((posIn p.cat p.I).map (σ.getD · 0)) p.dI :=
+    operand_inRange hcons hI (fun z hz' => by rw [hz]; exact List.mem_append_left _ hz') hσ'
+  have h2 : InRange ((posIn p.cat p.J).map (σ.getD · 0)) p.dJ :=
+    operand_inRange hcons hJ (fun z hz' => by rw [hz]; exact List.mem_append_right _ hz') hσ'
+  refine ⟨h1, h2, ?_, ?_⟩
+  · rw [Einsum.flatAt_eq_flat]; exact Einsum.flat_lt_prod h1
+  · rw [Einsum.flatAt_eq_flat]; exact Einsum.flat_lt_prod h2
+
+/-! ### T6: the vectorised loop nest -/
+
+/-- what `is_vectorisable` (the model's `Pair.stride`) guarantees for element sizes up to 16 bytes:
+    the stride is 1, or the last index of the second operand occurs nowhere else (it is free, hence
+    the innermost loop variable and the last result index) and the positive stride divides its
+    extent -/
+theorem stride_sound (p : Pair) (hJ : p.J.length = p.dJ.length) (sz : Nat) (hsz : 0 < sz ∧ sz ≤ 16)
+    (vec : Bool) :
+    p.stride sz vec = 1 ∨
+    ∃ J' jl k, p.J = J' ++ [jl] ∧ jl ∉ p.I ∧ jl ∉ J' ∧ 0 < p.stride sz vec ∧
+      p.dJ.getLastD 1 = k * p.stride sz vec :=
+  p.stride_cases hJ sz hsz vec
+
+/-- **T6 (explicit hypotheses).** If the last index `jl` of the second operand occurs nowhere else
+    and `V > 0` divides its extent, the vector loop nest (innermost step `V`, each event covering `V`
+    consecutive lanes of the output and of the second operand) leaves in every cell what the scalar
+    loop nest leaves there; in fact replacing every vector event by the `V` scalar events it stands
+    for (`expand`) yields the scalar event list itself, in order. -/
+theorem loopnest_vectorised_expand (p : Pair) (hI : p.I.length = p.dI.length)
+    (hJ : p.J.length = p.dJ.length) (J' : List Nat) (jl : Nat) (hJeq : p.J = J' ++ [jl])
+    (hnI : jl ∉ p.I) (hnJ : jl ∉ J') (k V : Nat) (hV : 0 < V) (hdl : p.dJ.getLastD 1 = k * V)
+    (a b : Nat → R) :
+    (p.loopEvents V).flatMap expand = p.loopEvents 1 ∧
+    ∀ q, accAt a b (p.loopEvents V) q = accAt a b (p.loopEvents 1) q := by
+  have h := p.loopEvents_vector_expand hI hJ J' jl hJeq hnI hnJ k V hV hdl
+  exact ⟨h, fun q => by rw [← accAt_expand, h]⟩
+
+/-- **T6.** With the stride the library selects (any element size up to 16 bytes, vectorisation on
+    or off) the loop nest computes in every cell the same value as the scalar loop nest … -/
+theorem loopnest_vectorised_correct (p : Pair) (hI : p.I.length = p.dI.length)
+    (hJ : p.J.length = p.dJ.length) (sz : Nat) (hsz : 0 < sz ∧ sz ≤ 16) (vec : Bool)
+    (a b : Nat → R) (q : Nat) :
+    accAt a b (p.loopEvents (p.stride sz vec)) q = accAt a b (p.loopEvents 1) q := by
+  rcases p.stride_cases hJ sz hsz vec with h | ⟨J', jl, k, hJeq, hnI, hnJ, hV, hdl⟩
+  · rw [h]
+  · exact (loopnest_vectorised_expand p hI hJ J' jl hJeq hnI hnJ k _ hV hdl a b).2 q
+
+/-- … hence the Einstein sum: T5 for the loop nest as the library actually runs it. -/
+theorem loopnest_vectorised_cell (p : Pair) (hI : p.I.length = p.dI.length)
+    (hJ : p.J.length = p.dJ.length) (sz : Nat) (hsz : 0 < sz ∧ sz ≤ 16) (vec : Bool)
+    (a b : Nat → R) (m : List Nat) (hm : m.length = p.resDims.length)
+    (hmr : ∀ k < p.resDims.length, m.getD k 0 < p.resDims.getD k 0) :
+    accAt a b (p.loopEvents (p.stride sz vec)) (flat p.resDims m)
+      = (((assignments p.loopDims 1).filter (fun σ => decide (p.free σ = m))).map
+          (fun σ => a (flatAt p.dI (posIn p.cat p.I) σ) * b (flatAt p.dJ (posIn p.cat p.J) σ))).sum := by
+  rw [loopnest_vectorised_correct p hI hJ sz hsz vec a b]
+  exact loopnest_correct_cell p hI hJ a b m hm hmr
+
+/-- frame for the vectorised nest -/
+theorem loopnest_vectorised_frame (p : Pair) (hI : p.I.length = p.dI.length)
+    (hJ : p.J.length = p.dJ.length) (sz : Nat) (hsz : 0 < sz ∧ sz ≤ 16) (vec : Bool)
+    (a b : Nat → R) (q : Nat) (hq : prod p.resDims ≤ q) :
+    accAt a b (p.loopEvents (p.stride sz vec)) q = 0 := by
+  rw [loopnest_vectorised_correct p hI hJ sz hsz vec a b]
+  exact loopnest_frame p hI hJ a b q hq
+
+/-! ### T6b: re-routing of the matrix-matrix pattern -/
+
+/-- **re-routing, matrix-matrix.**  For the pattern `I = A ++ C`, `J = C ++ B` with all index names
+    distinct (the shape `is_generalised_matrix_matrix` recognises: no index repeated within an operand,
+    the last `|C|` indices of `I` are the first `|C|` of `J`), extents `dA ++ dC`, `dC ++ dB`: the result
+    has indices `A ++ B`, extents `dA ++ dB` (so `M*N` cells with `M = prod dA`, `N = prod dB`), and
+    the loop nest leaves in cell `i*N + j` the `(i,j)` entry of the product of the operands read as
+    row-major `M×K` and `K×N` matrices, `K = prod dC` — which is what `_matmul<T,M,K,N>` computes on
+    the same buffers (C01). -/
+theorem reroute_gemm_correct (A C B dA dC dB : List Nat) (hnd : (A ++ C ++ B).Nodup)
+    (hA : A.length = dA.length) (hC : C.length = dC.length) (hB : B.length = dB.length)
+    (a b : Nat → R) :
+    (gemmPair A C B dA dC dB).resIdx = A ++ B ∧
+    (gemmPair A C B dA dC dB).resDims = dA ++ dB ∧
+    prod (gemmPair A C B dA dC dB).resDims = prod dA * prod dB ∧
+    ∀ i, i < prod dA → ∀ j, j < prod dB →
+      accAt a b ((gemmPair A C B dA dC dB).loopEvents 1) (i * prod dB + j)
+        = ∑ k ∈ Finset.range (prod dC), a (i * prod dC + k) * b (k * prod dB + j) := by
+  refine ⟨gemm_resIdx hnd, gemm_resDims hnd hA hC hB, ?_, ?_⟩
+  · rw [gemm_resDims hnd hA hC hB, prod_append]
+  · intro i hi j hj
+    obtain ⟨x, hx, rfl⟩ := Einsum.flat_surjective dA hi
+    obtain ⟨y, hy, rfl⟩ := Einsum.flat_surjective dB hj
+    exact gemm_cell hnd hA hC hB a b hx hy
+
+/-- **re-routing, as dispatched.**  Whenever the model's dispatch selects the matrix-matrix back end
+    (`p.route = .gemm`) for consistent extents, with `(M, K, N, _) = p.gemmShape` the shape handed to
+    `_matmul` and `K > 0`: the result has `M*N` cells and the Einstein sum computed by the loop nest
+    in cell `i*N + j` is the `(i,j)` entry of the `M×K` by `K×N` matrix product of the two operand
+    buffers — so replacing the loop nest by `_matmul<T,M,K,N>` (correct by C01) preserves the result. -/
+theorem reroute_gemm_dispatch (p : Pair) (hI : p.I.length = p.dI.length) (hJ : p.J.length = p.dJ.length)
+    (hcons : Consistent p.cat p.catDims) (hr : p.route = .gemm) (hK : 0 < p.gemmShape.2.1)
+    (a b : Nat → R) :
+    p.gemmShape.2.2.2 = false ∧
+    prod p.resDims = p.gemmShape.1 * p.gemmShape.2.2.1 ∧
+    ∀ i, i < p.gemmShape.1 → ∀ j, j < p.gemmShape.2.2.1 →
+      accAt a b (p.loopEvents 1) (i * p.gemmShape.2.2.1 + j)
+        = ∑ k ∈ Finset.range p.gemmShape.2.1,
+            a (i * p.gemmShape.2.1 + k) * b (k * p.gemmShape.2.2.1 + j) := by
+  obtain ⟨A, C, B, dA, dC, dB, rfl, hnd, hA, hC, hB, hnc, _⟩ := p.gemm_structure hI hJ hcons hr
+  have hK' : 0 < prod dC := by
+    rcases Nat.eq_zero_or_pos (prod dC) with h0 | h0
+    · exfalso
+      have : (gemmPair A C B dA dC dB).gemmShape.2.1 = 0 := by
+        unfold Pair.gemmShape
+        rw [hr]
+        simp only
+        rw [← hnc, hC]
+        show prod ((dC ++ dB).take dC.length) = 0
+        simpa using h0
+      omega
+    · exact h0
+  rw [gemmShape_of_gemm A C B dA dC dB hC hnc hr hK']
+  obtain ⟨_, _, h3, h4⟩ := reroute_gemm_correct A C B dA dC dB hnd hA hC hB a b
+  exact ⟨rfl, h3, h4⟩
+
+/-! ### non-vacuity -/
+
+/-- matrix product pattern `ij,jk`, extents 2×3 · 3×2 -/
+def pMM : Pair := { I := [0, 1], J := [1, 2], dI := [2, 3], dJ := [3, 2] }
+/-- trace-like pattern `ii,ji` (index 0 repeated inside the first operand), extents 2×2 · 3×2 -/
+def pTr : Pair := { I := [0, 0], J := [1, 0], dI := [2, 2], dJ := [3, 2] }
+
+example : pMM.resIdx = [0, 2] ∧ pMM.resDims = [2, 2] ∧ pMM.loopDims = [2, 3, 2] := by decide
+example : pTr.resIdx = [1] ∧ pTr.resDims = [3] ∧ pTr.loopDims = [2, 3] := by decide
+example : [1, 2, 1] ∈ assignments pMM.loopDims 1 := by decide
+example : [1, 2] ∈ assignments pTr.loopDims 1 := by decide
+example : Consistent pMM.cat pMM.catDims := by
+  intro i j hi hj
+  have h : ∀ i ∈ List.range 4, ∀ j ∈ List.range 4, pMM.cat.getD i 0 = pMM.cat.getD j 0 →
+      pMM.catDims.getD i 0 = pMM.catDims.getD j 0 := by decide
+  exact h i (List.mem_range.2 hi) j (List.mem_range.2 hj)
+example : Consistent pTr.cat pTr.catDims := by
+  intro i j hi hj
+  have h : ∀ i ∈ List.range 4, ∀ j ∈ List.range 4, pTr.cat.getD i 0 = pTr.cat.getD j 0 →
+      pTr.catDims.getD i 0 = pTr.catDims.getD j 0 := by decide
+  exact h i (List.mem_range.2 hi) j (List.mem_range.2 hj)
+example : ∀ x, pMM.cat.count x ≤ 2 := by
+  intro x; by_cases h : x ∈ pMM.cat
+  · have : x = 0 ∨ x = 1 ∨ x = 2 := by simpa [pMM, Pair.cat] using h
+    rcases this with rfl | rfl | rfl <;> decide
+  · rw [List.count_eq_zero.2 h]; omega
+
+/-- T5 instantiated: cell (1,1) of the 2×2 result of `ij,jk` is `∑_j a[1,j]*b[j,1]` -/
+example (a b : Nat → Int) :
+    accAt a b (pMM.loopEvents 1) 3 = a 3 * b 1 + (a 4 * b 3 + (a 5 * b 5 + 0)) := by
+  have h := loopnest_correct pMM rfl rfl a b [1, 2, 1] (by decide)
+  have e : flatAt pMM.resDims (posIn pMM.cat pMM.resIdx) [1, 2, 1] = 3 := by decide
+  rw [e] at h
+  rw [h]
+  rfl
+
+/-- T5 instantiated on `ii,ji`: cell `j = 2` holds `∑_i a[i,i]*b[2,i]` (the diagonal of `a`) -/
+example (a b : Nat → Int) :
+    accAt a b (pTr.loopEvents 1) 2 = a 0 * b 4 + (a 3 * b 5 + 0) := by
+  have h := loopnest_correct pTr rfl rfl a b [1, 2] (by decide)
+  have e : flatAt pTr.resDims (posIn pTr.cat pTr.resIdx) [1, 2] = 2 := by decide
+  rw [e] at h
+  rw [h]
+  rfl
+
+/-- a vectorised instance: `ij,jk` with extents 2×3 · 3×4 and 4-byte elements runs with stride 4,
+    three vector events per row instead of twelve scalar ones -/
+def pVec : Pair := { I := [0, 1], J := [1, 2], dI := [2, 3], dJ := [3, 4] }
+example : pVec.stride 4 true = 4 ∧ (pVec.loopEvents 4).length = 6 ∧ (pVec.loopEvents 1).length = 24 := by
+  decide
+example : pVec.J = [1] ++ [2] ∧ 2 ∉ pVec.I ∧ 2 ∉ [1] ∧ pVec.dJ.getLastD 1 = 1 * 4 := by decide
+
+/-- the matrix product pattern is an instance of `gemmPair`, and the library re-routes it -/
+example : pMM = gemmPair [0] [1] [2] [2] [3] [2] := rfl
+example : pMM.route = .gemm ∧ pMM.gemmShape = (2, 3, 2, false) ∧ 0 < pMM.gemmShape.2.1 := by decide
+/-- a rank-3 · rank-3 double contraction `A=[0]`, `C=[1,2]`, `B=[3]` -/
+example : (gemmPair [0] [1, 2] [3] [2] [3, 2] [5]).route = .gemm ∧
+    (gemmPair [0] [1, 2] [3] [2] [3, 2] [5]).gemmShape = (2, 6, 5, false) ∧
+    ([0] ++ [1, 2] ++ [3]).Nodup := by decide
+
 end Fastor.C03
